@@ -84,6 +84,14 @@ CLAIMED.update({
             'DESIGN.md §3 C14'),
 })
 
+CLAIMED.update({
+    'C15': ('model_checking',
+            'the whole trace is symbolic (z3 Bool per variable / auxiliary variable and position); init, trans and the translated formula returned by past.translate are re-read and evaluated position-wise; z3 decides agreement with a direct past-LTL recursion at every position, uniqueness of the auxiliary trace, and existence (QBF); with until=True on lassos with a symbolic loop point and the win conditions as fairness',
+            'Bounded solver check over all traces of a length bound for every formula of depth 1 and seeded formulas of depth 2-3 over two variables.',
+            'Trusted: z3 (incl. small QBF), omega\'s parser for re-reading translate\'s strings. Bounds: 2 variables, trace length 6 (thorough 8), lassos of length 4 (6); future and past operators are not mixed under until=True.',
+            'DESIGN.md §3 C15'),
+})
+
 NOT_APPLICABLE = {
     'C16': 'Parser/precedence/round-trip: PLY regex lexer + table-driven LALR driver over token sequences; no arithmetic or bit-level state for a solver to range over. CrossHair on lexyacc.Parser.parse with symbolic strings (len <= 3) answers "Unable to meet precondition" after 90 s. See DESIGN.md §5.',
 }
